@@ -50,6 +50,7 @@ type Contract struct {
 	Loops      map[int]*LoopSpec
 	Ghost      []Clause // ghost updates performed by a trusted function: "ghost x = e"
 	Options    map[string]string
+	At         map[string][]Clause // assertions checked right before a call site: "at <site> assert <expr>"
 	File       string
 	Used       bool
 }
@@ -75,6 +76,7 @@ type Lemma struct {
 type UFunc struct {
 	Name   string
 	Result string
+	Pkg    string
 }
 
 type GlobalDecl struct {
@@ -104,7 +106,7 @@ var reLabel = regexp.MustCompile(`^([A-Za-z0-9_\-#./]+):\s+(.*)$`)
 
 var keywords = map[string]bool{"func": true, "any": true, "requires": true, "ensures": true, "modifies": true,
 	"loop": true, "trusted": true, "spec": true, "lemma": true, "assume": true, "show": true, "package": true,
-	"global": true, "ghost": true, "option": true, "pure": true, "ghostvar": true, "ufunc": true, "ghosttype": true}
+	"global": true, "ghost": true, "option": true, "pure": true, "ghostvar": true, "ufunc": true, "ghosttype": true, "at": true}
 
 func (db *ContractDB) errf(format string, a ...interface{}) {
 	db.Errors = append(db.Errors, fmt.Sprintf(format, a...))
@@ -203,13 +205,23 @@ func (db *ContractDB) loadFile(path, defaultPkg string) {
 			cur, curLemma = nil, nil
 		case "func":
 			name := d.rest
-			cur = &Contract{Pkg: pkg, Name: name, Loops: map[int]*LoopSpec{}, Options: map[string]string{}, File: where}
+			cur = &Contract{Pkg: pkg, Name: name, Loops: map[int]*LoopSpec{}, Options: map[string]string{}, At: map[string][]Clause{}, File: where}
 			curLemma = nil
 			key := pkg + "." + name
 			if _, dup := db.Funcs[key]; dup {
 				db.errf("%s: duplicate contract for %s", where, key)
 			}
 			db.Funcs[key] = cur
+		case "at":
+			if cur != nil {
+				k := strings.Index(d.rest, " assert ")
+				if k < 0 {
+					db.errf("%s: at <site> assert <expr>", where)
+					continue
+				}
+				site := strings.TrimSpace(d.rest[:k])
+				cur.At[site] = append(cur.At[site], db.clause(d.rest[k+len(" assert "):], where))
+			}
 		case "trusted":
 			if cur != nil {
 				cur.Trusted = true
@@ -268,7 +280,7 @@ func (db *ContractDB) loadFile(path, defaultPkg string) {
 				continue
 			}
 			n := strings.TrimSpace(d.rest[:k])
-			db.UFuncs[n] = &UFunc{Name: n, Result: strings.TrimSpace(d.rest[e+1:])}
+			db.UFuncs[n] = &UFunc{Name: n, Result: strings.TrimSpace(d.rest[e+1:]), Pkg: pkg}
 		case "ghosttype":
 			f := strings.SplitN(d.rest, " ", 2)
 			if len(f) == 2 {
